@@ -1478,11 +1478,26 @@ func variantsFor(rng *core.Rand, base []call, full bool) []variant {
 		}
 	}
 	if lim := core.N(24, 400); len(mixed) > lim {
-		p := rng.Perm(len(mixed))[:lim]
-		sort.Ints(p)
-		sel := make([]variant, 0, lim)
-		for _, x := range p {
-			sel = append(sel, mixed[x])
+		// always keep the pairs "service registration fails, registration of one of ITS checks is refused"
+		// (check IDs of the generated fleets contain the ID of their service), fill up with a sample of the rest
+		var sel, rest []variant
+		for _, v := range mixed {
+			a, b := v.Faults[0].Desc, v.Faults[1].Desc
+			if strings.HasPrefix(a, "register:svc:") && strings.HasPrefix(b, "register:chk:") && strings.Contains(strings.TrimPrefix(b, "register:chk:"), strings.TrimPrefix(a, "register:svc:")) {
+				sel = append(sel, v)
+			} else {
+				rest = append(rest, v)
+			}
+		}
+		if len(sel) < lim && len(rest) > 0 {
+			p := rng.Perm(len(rest))
+			if len(p) > lim-len(sel) {
+				p = p[:lim-len(sel)]
+			}
+			sort.Ints(p)
+			for _, x := range p {
+				sel = append(sel, rest[x])
+			}
 		}
 		mixed = sel
 	}
